@@ -173,7 +173,16 @@ PROPS = {
     ),
     "C12": dict(
         level="proof",
-        modules=["Exmex.Props.C02"],
+        modules=["Exmex.Props.C12", "Exmex.Props.C13Lex", "Exmex.Props.C02"],
+        theorems=["Exmex.C12.flat_parse_text", "Exmex.C12.unparse_eq_render", "Exmex.C12.topChain_denote", "Exmex.C12.unparse_parse_sound",
+                  "Exmex.C12.shape_of_named", "Exmex.C13.tokenize_render_spaced"],
+        level_text=("kernel-checked: flat_parse_text (a parsed flat expression keeps exactly its source text); unparse_eq_render (the text printed by a deep expression is the "
+                    "space-free rendering of the surface chain topChain: literals by Debug, variables in braces, plain groups in parentheses, unary chains as nested function "
+                    "applications); topChain_denote (that chain is well-formed and has the value of the expression at every assignment, its variables are among the listed "
+                    "ones); unparse_parse_sound (hence, whenever the tokenizer reads the printed text as the canonical tokens of that chain, parsing the printed text succeeds, keeps "
+                    "the text, lists variables of the original and evaluates to the same value everywhere). The hypothesis about the tokenizer on space-free text is the per-case "
+                    "run-time guard (judged for lexSafe tables; the space-separated case is the theorem tokenize_render_spaced); literals whose Debug form is not a literal "
+                    "of the matcher (negative numbers, exponent forms) are outside the property's quantifier. serde = unparse + parse is covered at run time"),
         rule="random chains x tables: FlatEx::unparse must be the text parsed; the text printed by DeepEx (parsed, or reached through conversion histories) is re-parsed as a flat expression and must have the same variables and symbolic value; serde_json round trip of flat expressions derived from deep ones; calculation histories (operator application, shortcuts, substitution, differentiation): the text printed by every derived expression is re-parsed and compared; judged for tables whose printed form lexes unambiguously (lexSafe); non-trivial = at least two binary operators; distinct by request hash",
         kinds=[dict(kind="forms", quick=20000, thorough=600000,
                     corr=["fu", "dtext", "rt", "rtvars", "htext", "sj", "sjvars"],
@@ -195,9 +204,9 @@ PROPS = {
         modules=["Exmex.Props.C04", "Exmex.Props.C10", "Exmex.Props.C01Parse"],
         theorems=["Exmex.C10.resetVars_sound", "Exmex.C10.operateBin_sound", "Exmex.C01.findVars_toks", "Exmex.C04.findVars_sorted", "Exmex.C04.mem_findVars", "Exmex.C04.flat_eval_wrong_arity",
                   "Exmex.C04.flat_evalRelaxed_surplus", "Exmex.C04.deep_eval_wrong_arity", "Exmex.C04.braced_is_var"],
-        rule="expressions with 0..40 variables (bare ASCII/Greek identifiers, braced arbitrary text incl. spaces, digits, emoji, operator look-alikes), every slice length 0..n+3 on eval / eval_relaxed / eval_vec / eval_iter, flat and deep; plus the flat generator for the variable list; non-trivial = at least 2 distinct variables; distinct by request hash",
+        rule="expressions with 0..40 variables (bare ASCII/Greek identifiers, braced arbitrary text incl. spaces, digits, emoji, operator look-alikes), every slice length 0..n+3 on eval / eval_relaxed / eval_vec / eval_iter, flat and deep; with the exact length all entry points must return the value of eval (binding of the k-th value to the k-th name, also for repeated variables in the consuming entry points); plus the flat generator for the variable list; non-trivial = at least 2 distinct variables; distinct by request hash",
         kinds=[dict(kind="vars", quick=6000, thorough=150000, corr=["vars", "dvars", "ar"],
-                    oracle=[("vars", "svars"), ("dvars", "svars"), ("ar", "sar")], guards=["render", "toks"],
+                    oracle=[("vars", "svars"), ("dvars", "svars"), ("ar", "sar")], oracle_const=[("bind", "ok")], guards=["render", "toks"],
                     nontrivial=lambda req, A, B: A.get("vars", "").count(",") >= 1),
                dict(kind="flat", quick=8000, thorough=200000, corr=["vars"], oracle=[("vars", "svars")],
                     guards=["render", "toks"], nontrivial=flat_nontrivial),
@@ -243,8 +252,9 @@ PROPS = {
     ),
     "C05": dict(
         level="proof",
-        modules=["Exmex.Props.C05", "Exmex.Props.C02Deep", "Exmex.Props.C03"],
-        theorems=["Exmex.C05.partial_sound", "Exmex.C05.partial_norule", "Exmex.C05.Demo.demo", "Exmex.C02.deep_compile_sound", "Exmex.C03.fromDeep_sound"],
+        modules=["Exmex.Props.C05", "Exmex.Props.C09", "Exmex.Props.C02Deep", "Exmex.Props.C03"],
+        theorems=["Exmex.C05.partial_sound", "Exmex.C05.partial_norule", "Exmex.C05.Demo.demo", "Exmex.C09.partial_preserves", "Exmex.C09.partialIter_sound_single",
+                  "Exmex.C09.flat_partialIter_single_sound", "Exmex.C02.deep_compile_sound", "Exmex.C03.fromDeep_sound"],
         level_text=("kernel-checked (partial_sound): for every deep expression over + - * / ^ and the differentiable unary operators, every variable index and every "
                     "assignment, the expression returned by partial differentiation has the same variable list and evaluates to the derivative component of evaluating the "
                     "same expression over dual numbers with the textbook rules (Spec/Dual.lean: sum, product, quotient, general power rule, chain rule with the table of outer "
@@ -262,11 +272,18 @@ PROPS = {
     ),
     "C09": dict(
         level="proof",
-        modules=["Exmex.Props.C02Deep", "Exmex.Props.C03"],
-        theorems=["Exmex.C02.deep_compile_sound", "Exmex.C03.fromDeep_sound"],
-        level_text=("bookkeeping of differentiation (variable list of the antiderivative, index check before any work, n-th = repeated, iterated = sequential, order zero) "
-                    "as in Model/Diff.lean, tied to the code by exact symbolic correspondence and judged against the reference (error for an out-of-range index, variable "
-                    "list, sequential textbook derivatives) - partial, see DESIGN"),
+        modules=["Exmex.Props.C09", "Exmex.Props.C05", "Exmex.Props.C02Deep", "Exmex.Props.C03"],
+        theorems=["Exmex.C09.partial_vars", "Exmex.C09.partial_preserves", "Exmex.C09.partialIter_index_error", "Exmex.C09.partialIter_ok_inrange",
+                  "Exmex.C09.partialIter_nil", "Exmex.C09.partialIter_nil_sound", "Exmex.C09.partialIter_cons", "Exmex.C09.partialIter_replicate_succ",
+                  "Exmex.C09.partialIter_sound_single", "Exmex.C09.partialIter_vars", "Exmex.C09.flat_partialIter_single_sound", "Exmex.C05.partial_sound"],
+        level_text=("kernel-checked: partial_vars / partialIter_vars (a derivative lists exactly the variables of its antiderivative - purely structural, for any index "
+                    "sequence, no arithmetic laws needed); partialIter_index_error / partialIter_ok_inrange (an index >= the number of variables is the error `index`, decided "
+                    "before any work, for every sequence); partialIter_nil(_sound) (order zero = folding only: same value); partialIter_cons / go_append / "
+                    "partialIter_replicate_succ (iterated = sequential in that order, n-th = n single steps); partial_preserves (the result satisfies every hypothesis of "
+                    "partial_sound again, so each further derivative is covered by C05.partial_sound); partialIter_sound_single and flat_partialIter_single_sound (first "
+                    "derivative through the public entry point, deep and flat - the flat one through to_deepex / from_deepex with the link invariants proved). Not proved: "
+                    "symmetry of mixed partials (a fact about the functions denoted, judged numerically). The model is tied to the code by exact symbolic correspondence and "
+                    "judged against the reference (error for an out-of-range index, variable list, sequential textbook derivatives)"),
         rule="as C05 with index sequences of length 0..3 incl. out-of-range entries (10%), repeated and mixed indices; the variable list of every derivative must equal that of its antiderivative (also after substitution), an out-of-range index must be an error; non-trivial = at least one differentiation step; distinct by request hash",
         kinds=[dict(kind="hist", quick=8000, thorough=250000, args=["diff"], corr=["pool", "steps"], oracle=[], nontrivial=lambda req, A, B: "p:" in req.split("\t")[5]),
                dict(kind="histf", quick=10000, thorough=300000, args=["diff"], no_model=True, corr=[], oracle_const=[("r", "ok")], nontrivial=lambda req, A, B: "p:" in req.split("\t")[3])],
